@@ -71,7 +71,7 @@ Section Calls.
   Variable chargef : f64 -> Z -> option Z.
   Variable sharef : Z -> Z -> Z -> option Z.
   Hypothesis sharef_nonneg : forall a b c r, sharef a b c = Some r -> 0 <= r.
-  Hypothesis chargef_le : forall r x c, chargef r x = Some c -> 0 <= c <= x.
+  Hypothesis chargef_le : forall r x c, chargef r x = Some c -> 0 <= c.
 
   Lemma sp_randn_bounds : forall sp v n d,
     sp_wf sp -> 0 <= v -> sp_total_rewards sp + v < sp_max -> mf_draws_ok n d (length (sp_pools sp)) ->
@@ -89,7 +89,7 @@ Section Calls.
     - destruct Hcase as (Hr & _ & _ & (e & Hc & _) & Hex).
       pose proof (sp_cred_len _ _ _ Hc) as [_ Hl].
       assert (Hb : sp_total_rewards sp <= sp_total_rewards sp' <= sp_total_rewards sp + v).
-      { destruct Hex as [E|(_ & _ & E & _)]; lia. }
+      { lia. }
       split; [|split; assumption].
       pose proof (sp_wf_rewards_nonneg _ Hwf) as Hnn. destruct Hwf as [Hp Hrw]. unfold sp_coin in Hrw.
       assert (Hnn' : Forall (fun q => 0 <= dp_reward q) (sp_pools sp')) by (eapply sp_cred_keeps_nonneg; eassumption).
@@ -157,7 +157,7 @@ Section PayFees.
   Variable sharef : Z -> Z -> Z -> option Z.
   Variable splitf : f64 -> Z -> option Z.
   Hypothesis sharef_nonneg : forall a b c r, sharef a b c = Some r -> 0 <= r.
-  Hypothesis chargef_le : forall r x c, chargef r x = Some c -> 0 <= c <= x.
+  Hypothesis chargef_le : forall r x c, chargef r x = Some c -> 0 <= c.
   Hypothesis splitf_nonneg : forall r y c, splitf r y = Some c -> 0 <= c.
 
   (* only the block's generator, only for the block's round *)
@@ -179,19 +179,18 @@ Section PayFees.
     (forall m, miner = Some m -> mf_node_ok (2 * (fees + br)) (gn_nmd gn) m md) ->
     length sd = length sharders ->
     Forall2 (mf_node_ok (2 * (fees + br)) (gn_nsd gn)) sharders sd ->
-    (live = true -> sharders <> []) ->
     mf_pay_fees chargef sharef splitf gn bk client in_round miner live sharders md sd <> SpPanic /\
     forall miner' sharders',
       mf_pay_fees chargef sharef splitf gn bk client in_round miner live sharders md sd = SpOk (miner', sharders') ->
       exists mr sr mfe sfe,
         mf_split splitf (gn_share_ratio gn) br = Some (mr, sr) /\ mf_split splitf (gn_share_ratio gn) fees = Some (mfe, sfe) /\
         mr + sr + mfe + sfe = fees + br /\
-        (live = true -> sp_sum (mf_shares sfe (length sharders)) = sfe /\ sp_sum (mf_shares sr (length sharders)) = sr) /\
+        (sharders <> [] -> sp_sum (mf_shares sfe (length sharders)) = sfe /\ sp_sum (mf_shares sr (length sharders)) = sr) /\
         mf_opt_total miner + mf_total sharders <= mf_opt_total miner' + mf_total sharders'
           <= mf_opt_total miner + mf_total sharders + fees + br /\
         map nd_id sharders' = map nd_id sharders.
   Proof.
-    intros gn bk client in_round miner live sharders md sd fees br HF Hfees Hbr Hm Hlsd Hsh Hlive.
+    intros gn bk client in_round miner live sharders md sd fees br HF Hfees Hbr Hm Hlsd Hsh.
     pose proof (mf_sum_fees_nonneg _ _ _ HF (Z.le_refl 0) Hfees) as Hf0.
     pose proof (f64_mult_coin_nonneg _ _ _ Hbr) as Hb0.
     unfold mf_pay_fees. rewrite Hfees, Hbr.
@@ -201,6 +200,8 @@ Section PayFees.
     destruct (mf_split splitf (gn_share_ratio gn) fees) as [[mfe sfe]|] eqn:S2; [|split; [discriminate|intros; discriminate]].
     destruct (mf_split_exact _ _ _ _ _ splitf_nonneg S1) as (E1 & R1 & R1').
     destruct (mf_split_exact _ _ _ _ _ splitf_nonneg S2) as (E2 & R2 & R2').
+    assert (Hshares : sharders <> [] -> sp_sum (mf_shares sfe (length sharders)) = sfe /\ sp_sum (mf_shares sr (length sharders)) = sr).
+    { intros Hne. split; (apply mf_shares_exact; [lia|destruct sharders; [contradiction|simpl; lia]]). }
     (* the generator's (or substitute) miner node: two calls on the same node *)
     assert (HM : forall m, miner = Some m ->
               sp_distribute_randn chargef sharef (nd_sp m) mr (gn_nmd gn) md <> SpPanic /\
@@ -221,8 +222,11 @@ Section PayFees.
                 mf_pay_sharders chargef sharef gn s1 sr sd <> SpPanic /\
                 forall s2, mf_pay_sharders chargef sharef gn s1 sr sd = SpOk s2 ->
                   mf_total sharders <= mf_total s2 <= mf_total sharders + sfe + sr /\ map nd_id s2 = map nd_id sharders).
-    { intros Hl. specialize (Hlive Hl). unfold mf_pay_sharders.
-      destruct sharders as [|s0 stl] eqn:Es; [contradiction|]. rewrite <- Es in *.
+    { intros Hl. unfold mf_pay_sharders.
+      destruct sharders as [|s0 stl] eqn:Es.
+      { split; [discriminate|]. intros s1 Hx1. inversion Hx1; subst. split; [discriminate|].
+        intros s2 Hx2. inversion Hx2; subst. simpl. split; [lia|reflexivity]. }
+      rewrite <- Es in *.
       assert (Hk : (0 < length sharders)%nat) by (rewrite Es; simpl; lia).
       destruct (mf_shares_exact sfe (length sharders) R2' Hk) as (Sum1 & Len1 & _ & Bnd1).
       destruct (mf_shares_exact sr (length sharders) R1' Hk) as (Sum2 & Len2 & _ & Bnd2).
@@ -260,12 +264,12 @@ Section PayFees.
         split; [discriminate|]. intros miner' sharders' H; inversion H; subst; clear H.
         exists mr, sr, mfe, sfe.
         split; [reflexivity|]. split; [reflexivity|]. split; [lia|].
-        split; [intros _; split; (apply mf_shares_exact; [lia|destruct sharders; [exfalso; apply Hlive; reflexivity|simpl; lia]])|].
+        split; [exact Hshares|].
         split; [simpl; lia|assumption].
       + split; [discriminate|]. intros miner' sharders' H; inversion H; subst; clear H.
         exists mr, sr, mfe, sfe.
         split; [reflexivity|]. split; [reflexivity|]. split; [lia|].
-        split; [discriminate|]. split; [simpl; lia|reflexivity].
+        split; [exact Hshares|]. split; [simpl; lia|reflexivity].
     - destruct live.
       + destruct (HS eq_refl) as [Ns1 Oks1].
         destruct (mf_pay_sharders chargef sharef gn sharders sfe sd) as [s1| |] eqn:Es1;
@@ -277,12 +281,12 @@ Section PayFees.
         split; [discriminate|]. intros miner' sharders' H; inversion H; subst; clear H.
         exists mr, sr, mfe, sfe.
         split; [reflexivity|]. split; [reflexivity|]. split; [lia|].
-        split; [intros _; split; (apply mf_shares_exact; [lia|destruct sharders; [exfalso; apply Hlive; reflexivity|simpl; lia]])|].
+        split; [exact Hshares|].
         split; [simpl; lia|assumption].
       + split; [discriminate|]. intros miner' sharders' H; inversion H; subst; clear H.
         exists mr, sr, mfe, sfe.
         split; [reflexivity|]. split; [reflexivity|]. split; [lia|].
-        split; [discriminate|]. split; [simpl; lia|reflexivity].
+        split; [exact Hshares|]. split; [simpl; lia|reflexivity].
   Qed.
 End PayFees.
 
